@@ -28,17 +28,17 @@ func init() {
 func cheapCosts(name string, k int) []int64 {
 	switch name {
 	case "sha256", "sha512":
-		return []int64{int64(cheapSha2[k%3])}
+		return []int64{int64(costSha2[k%len(costSha2)])}
 	case "sha1":
-		return []int64{int64(1 + k%40)}
+		return []int64{int64(costSha1[k%len(costSha1)])}
 	case "sunmd5":
-		return []int64{int64(k % 3)}
+		return []int64{int64(costSunmd5[k%len(costSunmd5)])}
 	case "desext":
-		return []int64{int64(1 + k%5)}
+		return []int64{int64(costDesext[k%len(costDesext)])}
 	case "bcrypt":
-		return []int64{int64(4 + k%2)}
+		return []int64{int64(costBcrypt[k%len(costBcrypt)])}
 	case "argon2":
-		return []int64{int64(8 + k%9), int64(1 + k%2)}
+		return []int64{int64(costArgonM[k%len(costArgonM)]), int64(costArgonT[k%len(costArgonT)])}
 	}
 	return nil
 }
